@@ -4,4 +4,5 @@ CONSTANTS
   MaxOps = 5
   Suites = {"CBC", "GCM"}
   Names = {"a", "b"}
+  Versions = {11, 12}
 INVARIANTS ResumeContinues CacheSane CacheBound
